@@ -68,6 +68,26 @@ class Registry:
                 self.src.setdefault(m, "")
         self._axiom_cache = {}
 
+    def module_level(self, qualname, name):
+        """('constant', node) for a module-level immutable literal, ('mutable', node) for any other module-level assignment, else None."""
+        parts = qualname.split(".")
+        m = parts[1] if len(parts) > 1 else None
+        t = self.tree.get(m)
+        if t is None:
+            return None
+        for node in t.body:
+            targets = []
+            if isinstance(node, ast.Assign):
+                targets, value = node.targets, node.value
+            elif isinstance(node, ast.AnnAssign) and node.value is not None:
+                targets, value = [node.target], node.value
+            for tg in targets:
+                if isinstance(tg, ast.Name) and tg.id == name:
+                    if isinstance(value, ast.Constant) and isinstance(value.value, (str, int, bool, type(None))):
+                        return ("constant", value)
+                    return ("mutable", node)
+        return None
+
     def contract_for(self, simple_name):
         hits = [c for n, c in self.contracts.items() if n.split(".")[-1] == simple_name and not c.get("variant_of")]
         return hits[0] if hits else None
